@@ -806,7 +806,7 @@ pub fn run_hostile(cx: &mut Ctx, rng: &mut Rng, shapes: &[ReqShape]) {
         1 => 1152,
         2 => rng.below(5001) as usize,
         3 => rng.range(20, 60) as usize,
-        _ => *rng.pick(&[0usize, 16, 21, 22, 23, 24, 32, 37, 38, 64, 128, 1280, 5000]),
+        _ => *rng.pick(&[0usize, 16, 21, 22, 23, 24, 32, 37, 38, 64, 128, 1280, 5000, 65535, 65536, 1 << 32, usize::MAX / 2, usize::MAX - 1, usize::MAX]),
     };
     let mut sess = Session::new(m, 60_000);
     let mut problems: Vec<(&'static str, String)> = vec![];
@@ -1462,7 +1462,7 @@ pub fn run(cx: &mut Ctx) {
     }
     // Block2 requests that start at an arbitrary block with nothing cached
     for shape in &shapes {
-        for &m in &[64usize, 100, 300, 1152] {
+        for &m in &[64usize, 100, 300, 1152, 4200, 1 << 32, usize::MAX - 7, usize::MAX] {
             for num in [0usize, 1, 2, 5] {
                 for szx in [0u8, 2, 4, 6, 7] {
                     let body = body_of(&mut rng, 3000);
